@@ -96,6 +96,9 @@ def forms(r, D):
     out['row-dicts'] = rowdicts
     out['sparse-rows'] = lambda: ([sp.csr_matrix(D[i:i + 1, :])
                                    for i in range(n)], {})
+    if n == 1 and D.shape[1] > 1:
+        # a single observation given as a plain vector
+        out['ndarray-1d'] = lambda: (D[0].copy(), {})
 
     def narrow(row):
         # the narrowest element type that holds this row exactly
